@@ -140,12 +140,16 @@ func (*Typechecker).VisitFieldAccess [C04]
 
 // a call: every argument whose type differs from its parameter's type is reported, and so is every field value of a
 // Kombination literal whose type differs from the field's type
-func (*Typechecker).VisitFuncCall [C04]
+func (*Typechecker).VisitFuncCall [C04, C16]
   requires t != nil && t.Module != nil && t.Module.Ast != nil && t.panicMode != nil && callExpr != nil && callExpr.Func != nil
   loop 0 each errExpr when !ddptypes.Equal(argType, paramType.Type)
-func (*Typechecker).VisitStructLiteral [C04]
+  // C16: the arguments are checked (and their diagnostics delivered - only the first one of a statement gets through)
+  // in an order that does not depend on the iteration order of the argument map
+  ordered Evaluate, errExpr
+func (*Typechecker).VisitStructLiteral [C04, C16]
   requires t != nil && t.Module != nil && t.Module.Ast != nil && t.panicMode != nil && expr != nil && expr.Type != nil
   loop 0 each errExpr when !ddptypes.Equal(argType, paramType)
+  ordered Evaluate, errExpr
 
 // --- statements: conditions and return values ---
 // the condition of a Wenn statement must be a Wahrheitswert
